@@ -53,7 +53,14 @@ func isSubsequence(sub, full []string) (bool, int) {
 func TestC10_SlowConsumers(t *testing.T) {
 	burst := kcache.EventBufsiz / 4
 	rapid.Check(t, func(t *rapid.T) {
-		w := newWorld(t, worldCfg{prop: "C10", rootFilter: -1, perturb: rapid.Bool().Draw(t, "perturb"), seed: rapid.Uint64().Draw(t, "pseed")})
+		cfg := worldCfg{prop: "C10", rootFilter: -1, perturb: rapid.Bool().Draw(t, "perturb"), seed: rapid.Uint64().Draw(t, "pseed")}
+		if rapid.IntRange(0, 2).Draw(t, "typedTree") == 0 {
+			// the same tree through a typed package: stalled consumers are then typed subscriptions
+			// (their own forwarding goroutine and buffer sit between the core and the consumer)
+			cfg.typed = rapid.SampledFrom([]string{"pod", "service", "deployment"}).Draw(t, "pkg")
+			cfg.objType = cfg.typed
+		}
+		w := newWorld(t, cfg)
 		defer w.abort()
 		keys := [][2]string{{"a", "p"}, {"a", "q"}, {"a", "r"}, {"b", "p"}, {"b", "q"}, {"c", "p"}}
 		// 1. tree
@@ -88,6 +95,7 @@ func TestC10_SlowConsumers(t *testing.T) {
 		}
 		var victims []*victim
 		var stalledFiltered []*node
+		refilteredStalled := false
 		cachesCurrent := func() {
 			// the cache of a filtered subscription stays current although nobody reads its Events()
 			for _, n := range stalledFiltered {
@@ -174,6 +182,14 @@ func TestC10_SlowConsumers(t *testing.T) {
 			}
 			sent += n
 			w.checkQuiet() // healthy nodes only: caches current, mirrors exact, barrier completes
+			cachesCurrent()
+			// a filtered subscription nobody reads is refiltered: the call must be taken, its cache must follow
+			for _, fn := range stalledFiltered {
+				if rapid.IntRange(0, 3).Draw(t, "refilterStalled") == 0 {
+					w.refilter(fn, rapid.SampledFrom([]int{0, 1, 2, 3, 5, 7}).Draw(t, "sf"))
+					refilteredStalled = true
+				}
+			}
 			cachesCurrent()
 		}
 		w.checkQuiet()
@@ -272,6 +288,6 @@ func TestC10_SlowConsumers(t *testing.T) {
 		}
 		statCase("C10", hashString(strings.Join(w.hist, ";")), nt, func() interface{} {
 			return map[string]interface{}{"nodes": len(w.nodes), "stalled": vkinds, "events": total, "history_head": hist}
-		}, fmt.Sprintf("stalled=%d", min(len(victims), 3)), fmt.Sprintf("stream_over_buffer=%v", total > kcache.EventBufsiz))
+		}, fmt.Sprintf("refiltered_a_stalled_filtered_subscription=%v", refilteredStalled), fmt.Sprintf("stalled=%d", min(len(victims), 3)), fmt.Sprintf("stream_over_buffer=%v", total > kcache.EventBufsiz), "typed_tree="+cfg.typed)
 	})
 }
